@@ -225,11 +225,11 @@ fn gen_bed(w: &World) -> (Vec<BedModel>, usize) {
                 3 => {
                     let bed12 = [
                         "uc001aaa.3".to_string(),
-                        (*w.pick(&["0", "1000", "960", "500"])).to_string(),
+                        (*w.pick(&["0", "1000", "960", "500", "1001", "-1", "65536", "0.5"])).to_string(),
                         (*w.pick(&["+", "-", "."])).to_string(),
                         m.start.to_string(),
                         m.end.to_string(),
-                        (*w.pick(&["255,0,0", "0", "0,0,0"])).to_string(),
+                        (*w.pick(&["255,0,0", "0", "0,0,0", "#FF8000", "#000000", "#ffffff", "255,0,0,", "255 0 0"])).to_string(),
                         (*w.pick(&["2", "1", "3"])).to_string(),
                         (*w.pick(&["567,488,", "10,20", "1"])).to_string(),
                         (*w.pick(&["0,3512", "0,30,", "0"])).to_string(),
@@ -1241,8 +1241,11 @@ fn probes_from_cuts(w: &W, data: &[u8], cuts: &[usize]) {
 
 // "0x10" is deliberately absent: the csv crate documents hexadecimal integers as valid numbers.
 // blank-padded numbers (" 7") are absent too: a parser that trims blanks would be lenient, not wrong.
-const BAD_NUMBERS: [&str; 15] = [
+const BAD_NUMBERS: [&str; 25] = [
     "abc", "", "-5", "1.5", "184467440737095516160", "-0", "0x", "18446744073709551616", "1e3", "1_000", "٣", "1,5", "１２", "~", "None",
+    // notations other tools and databases use around coordinates: partial-feature marks, ranges,
+    // thousands separators, units, placeholders
+    "<5", ">90", "5..10", "5-10", "1,000", "5kb", ".", "NA", "NaN", "inf",
 ];
 const BAD_PHASES: [&str; 8] = ["3", "7", "255", "256", "-1", "x", "", "0.0"];
 
@@ -1405,6 +1408,15 @@ fn damage(w: &W, fmt: Fmt) -> Verdict {
         }
         w.fired("final_newline_stripped");
         w.probe("damaged_last_line_without_newline");
+    }
+    if img.starts_with(b"\xef\xbb\xbf") {
+        // The damage has moved a U+FEFF to the very start of the file (an empty first column merged
+        // with a second column that begins with one). A file that starts with a byte order mark is
+        // outside the domain — the mark is an encoding signature, csv drops it — and the injector
+        // must not be the one to make such a file. (csv-core 0.1 moreover reads the whole file as
+        // empty when the first chunk it is given is exactly those three bytes: DESIGN §10.4 item 8.)
+        w.probe("damage_would_put_a_byte_order_mark_first");
+        return Ok(());
     }
     let data = Rc::new(img);
     let rio = if w.chance(1, 2) { IoCfg::draw(w, false) } else { IoCfg::CLEAN };
